@@ -528,6 +528,48 @@ pub fn run(cx: &mut Cx) {
         }
     }
 
+    // The length ladder: literal runs and runs of one-character tokens of
+    // 2^8 and 2^16 characters, one less and one more (and 2^17 + 1) - a length
+    // or a count kept in a u8 / u16 wraps or saturates exactly there.
+    if matches!(cx.tier, Tier::Quick | Tier::Thorough) {
+        cx.set_budget(1 << 28, 1 << 36);
+        let mut ladder_i = 0u64;
+        for n in [255usize, 256, 257, 65_535, 65_536, 65_537, 131_073] {
+            ladder_i += 1;
+            if !cx.mine(ladder_i) {
+                continue;
+            }
+            let lit: String = (0..n).map(|i| (b'a' + (i % 23) as u8) as char).collect();
+            let cut = n % 65_536;
+            let mut late = lit.clone().into_bytes();
+            late[n - 1] = b'Z';
+            let late = String::from_utf8(late).unwrap_or_default();
+            let shapes: Vec<(String, Vec<String>)> = vec![
+                // literal run then '*'
+                (format!("{lit}*"), vec![format!("{lit}-1.0"), lit.clone(), lit[..n - 1].to_string(), late.clone(), format!("{}Z", &lit[..cut.min(n - 1)]), lit[..cut].to_string(), format!("x{lit}")]),
+                // '*' then the literal run
+                (format!("*{lit}"), vec![format!("p-{lit}"), lit.clone(), lit[1..].to_string(), late.clone()]),
+                // n one-character wildcards
+                (format!("{}-[0-9]", "?".repeat(n)), vec![format!("{lit}-1"), format!("{}-1", &lit[..n - 1]), format!("{lit}a-1"), format!("{lit}-x")]),
+                // n sets
+                (format!("{}!", "[a-w]".repeat(n)), vec![format!("{lit}!"), format!("{}!", &lit[..n - 1]), format!("{late}!"), format!("{lit}a!")]),
+                // a plain pattern of that length
+                (lit.clone(), vec![lit.clone(), late.clone(), lit[..n - 1].to_string(), format!("{lit}a")]),
+            ];
+            for (p, names) in shapes {
+                let names: Vec<(String, &'static str)> = names.into_iter().map(|s| (s, "ladder")).collect();
+                cx.check(
+                    || format!("length ladder n={n}: pattern of {} characters starting {:?} x {} names", p.chars().count(), p.chars().take(12).collect::<String>(), names.len()),
+                    |ev| {
+                        ev.count("workload/length-ladder");
+                        check_glob_or_plain(ev, &p, &names)
+                    },
+                );
+            }
+        }
+        cx.default_budget();
+    }
+
     // Fast-reject inertness for the other two kinds.
     let n = cx.per_shard(20, 2_000, 96_000, 480_000);
     let mut r = cx.stream("fastpath-other-kinds");
